@@ -335,6 +335,11 @@ def read_scsv(file):
         )
 
 
+def _yaml_quoted(value):
+    """Return `value` as a single-quoted YAML scalar, so that it is read back verbatim."""
+    return "'" + str(value).replace("'", "''") + "'"
+
+
 def write_scsv_header(stream, schema, comments=None):
     """Write YAML header to an SCSV stream.
 
@@ -359,21 +364,21 @@ def write_scsv_header(stream, schema, comments=None):
     stream.write("schema:" + os.linesep)
     delimiter = schema["delimiter"]
     missing = schema["missing"]
-    stream.write(f"  delimiter: '{delimiter}'{os.linesep}")
-    stream.write(f"  missing: '{missing}'{os.linesep}")
+    stream.write(f"  delimiter: {_yaml_quoted(delimiter)}{os.linesep}")
+    stream.write(f"  missing: {_yaml_quoted(missing)}{os.linesep}")
     stream.write("  fields:" + os.linesep)
 
     for field in schema["fields"]:
         name = field["name"]
         kind = field.get("type", _SCSV_DEFAULT_TYPE)
-        stream.write(f"    - name: {name}{os.linesep}")
+        stream.write(f"    - name: {_yaml_quoted(name)}{os.linesep}")
         stream.write(f"      type: {kind}{os.linesep}")
         if "unit" in field:
             unit = field["unit"]
-            stream.write(f"      unit: {unit}{os.linesep}")
+            stream.write(f"      unit: {_yaml_quoted(unit)}{os.linesep}")
         if "fill" in field:
             fill = field["fill"]
-            stream.write(f"      fill: {fill}{os.linesep}")
+            stream.write(f"      fill: {_yaml_quoted(fill)}{os.linesep}")
     stream.write("---" + os.linesep)
 
 
